@@ -23,13 +23,13 @@ var jsonTexts = []string{
 	// finite numbers of any magnitude or sign
 	"0", "-1", "0.5", "1", "2", "-40", "100", "255", "256", "360.5", "65535", "65536",
 	"2147483647", "2147483648", "-2147483648", "-2147483649", "4294967295", "4294967296",
-	"9007199254740992", "9223372036854775807", "9223372036854775808", "-9223372036854775809",
+	"9007199254740992", "9007199254740993", "9007199254740994", "18014398509481987", "18014398509481988", "4611686018427387906", "4611686018427387904", "9223372036854775807", "9223372036854775808", "-9223372036854775809",
 	"18446744073709551615", "18446744073709551616", "1e19", "1e300", "-1e300", "5e-324", "-0.0", "1e-5",
 	// the largest finite magnitudes (anything that re-parses or rounds a float may turn them into an infinity), float32's, the smallest normal
 	"1.7976931348623157e308", "-1.7976931348623157e308", "1.7976931348623155e308", "3.4028234663852886e38", "3.4028235677973366e38", "2.2250738585072014e-308", "0.1", "0.30000000000000004",
 	// strings
 	`""`, `"abc"`, `"12"`, `"-3"`, `"1e5"`, `"12.7"`, `" 5"`, `"0x10"`, `"NaN"`, `"Inf"`, `"-Infinity"`, `"+Inf"`, `"infinity"`, `"1e400"`, `"-1e400"`, `"1.7976931348623157e308"`, `"-1.7976931348623157e308"`, `"1.7976931348623159e308"`,
-	`"true"`, `"false"`, `"1"`, `"AQID"`, `"18446744073709551616"`, `"-9223372036854775809"`, `"null"`,
+	`"true"`, `"false"`, `"1"`, `"AQID"`, `"18446744073709551616"`, `"-9223372036854775809"`, `"null"`, `"9007199254740993"`, `"18014398509481987"`, `"4611686018427387906"`,
 	// booleans and null
 	"true", "false", "null",
 	// composites, flat and nested
@@ -60,6 +60,12 @@ func hostileValues(r *vf.Run) []*hval {
 	native("int(1<<31)", int(1<<31))
 	native("int(1<<32)", int(1<<32))
 	native("int(-1<<31-1)", int(-1<<31-1))
+	native("int(1<<53+1)", int(1<<53+1))
+	native("int(1<<53+2)", int(1<<53+2))
+	native("int(1<<54+3)", int(1<<54+3))
+	native("int(1<<54+4)", int(1<<54+4))
+	native("int(1<<62+2)", int(1<<62+2))
+	native("uint64(1<<62+2)", uint64(1<<62+2))
 	native("int(MaxInt64)", int(math.MaxInt64))
 	native("int(MinInt64)", int(math.MinInt64))
 	native("int8(-5)", int8(-5))
